@@ -1171,3 +1171,906 @@ Proof.
     rewrite upd_same by auto. rewrite set_objs_same.
     split; [auto|split; [auto|split; [auto|split; [auto|auto]]]].
 Qed.
+
+Lemma managed_live x s d D m :
+  pinv x s -> lookup d (datas s) = Some D -> gp (ugp (dup D)) = Some m ->
+  0 < hard D /\ is_live (al s) m = true /\ lookup m (datas s) = None.
+Proof.
+  intros I L M. destruct (N.eq_dec (hard D) 0) as [Z|Z].
+  - rewrite (inv_hard0 _ _ I d D L Z) in M. discriminate.
+  - assert (P : 0 < hard D) by lia. destruct (inv_mem _ _ I d D L P) as (m' & M1 & M2 & M3).
+    assert (m' = m) by congruence. subst. auto.
+Qed.
+
+Lemma not_live_nodata x s b : pinv x s -> is_live (al s) b = false -> lookup b (datas s) = None.
+Proof.
+  intros I L. destruct (lookup b (datas s)) as [D|] eqn:E; auto.
+  rewrite (inv_live _ _ I b D E) in L. discriminate.
+Qed.
+
+Lemma not_live_noupr x s b : pinv x s -> is_live (al s) b = false -> cnt (upr b) 0 (objs s) = 0.
+Proof.
+  intros I L. destruct (N.eq_dec (cnt (upr b) 0 (objs s)) 0) as [Z|Z]; auto.
+  destruct (upr_live x s b I) as (L' & _); [lia|congruence].
+Qed.
+
+Section Fresh.
+  Variable ok : nat -> N -> bool.
+
+  Lemma pinv_fresh s i o d m a1 a2 sz cb :
+    inv s -> nth_error (objs s) i = Some o -> tgt i o = None -> ownerk (okind o) = true ->
+    malloc ok (al s) DATA_SZ = (a1, Some d) -> malloc ok a1 sz = (a2, Some m) ->
+    inv (mkSt a2 (upd (objs s) i (ptr_obj i o (Some d)))
+              (store d (mkD 1 1 (mkU (mkG (AData d) (Some m)) cb)) (datas s))
+              (descs s) (exts s)
+              (MA (EvMalloc m sz) :: MA (EvMalloc d DATA_SZ) :: log s)).
+  Proof.
+    intros I E T K M1 M2.
+    assert (NU : okind o <> KU) by (destruct (okind o); discriminate).
+    pose proof (inv_log _ _ I) as LI.
+    pose proof (linv_malloc ok _ _ _ _ _ LI M1) as LI1. pose proof (linv_malloc ok _ _ _ _ _ LI1 M2) as LI2.
+    pose proof (fun b => is_live_malloc ok _ _ _ _ b M1) as L1.
+    pose proof (fun b => is_live_malloc ok _ _ _ _ b M2) as L2.
+    assert (AO : alloc_ok (al s)) by apply LI.
+    assert (AO1 : alloc_ok a1) by apply LI1.
+    pose proof (malloc_some ok _ _ _ _ M1) as (Ed & _ & N1).
+    pose proof (malloc_some ok _ _ _ _ M2) as (Em & _ & N2).
+    assert (Fd : is_live (al s) d = false) by (subst d; apply fresh_not_live; auto).
+    assert (Fm1 : is_live a1 m = false) by (subst m; apply fresh_not_live; auto).
+    assert (Nmd : m <> d) by (subst; lia).
+    assert (Fm : is_live (al s) m = false).
+    { specialize (L1 m). rewrite Fm1 in L1. symmetry in L1. apply orb_false_iff in L1. tauto. }
+    assert (LV : forall b, is_live a2 b = Nat.eqb m b || (Nat.eqb d b || is_live (al s) b)).
+    { intros b. rewrite L2, L1. reflexivity. }
+    pose proof (not_live_nodata _ _ _ I Fd) as Ld. pose proof (not_live_nodata _ _ _ I Fm) as Lm.
+    pose proof (not_live_noupr _ _ _ I Fm) as Um.
+    destruct (inv_nodata _ _ I d Ld) as (Hd0 & Wd0).
+    assert (Hn : forall d', hp None d' i o = false) by (intros; unfold hp; rewrite T; cbn; apply andb_false_r).
+    assert (Wn : forall d', wp None d' i o = false) by (intros; unfold wp; rewrite T; cbn; apply andb_false_r).
+    assert (CH : forall d', cnt (hp None d') 0 (upd (objs s) i (ptr_obj i o (Some d))) = cnt (hp None d') 0 (objs s) + b2n (Nat.eqb d d')).
+    { intros d'. pose proof (cnt_hp_set None (objs s) i o (Some d) d' (or_introl eq_refl) E) as Q.
+      rewrite Hn, K in Q. cbn [opt_is andb b2n] in Q. lia. }
+    assert (CW : forall d', cnt (wp None d') 0 (upd (objs s) i (ptr_obj i o (Some d))) = cnt (wp None d') 0 (objs s)).
+    { intros d'. pose proof (cnt_wp_set None (objs s) i o (Some d) d' (or_introl eq_refl) E) as Q.
+      rewrite Wn in Q. replace (kind_eqb (okind o) KW) with false in Q by (destruct (okind o); try discriminate; auto).
+      cbn [andb b2n] in Q. lia. }
+    destruct (uniq_cond_upd s None i o (ptr_obj i o (Some d)) I E NU eq_refl) as (UU & UC).
+    pose proof (upr_live None s) as UL. specialize (fun m => UL m I).
+    pose proof (managed_live None s) as ML. specialize (fun d D m => ML d D m I).
+    destruct I as [Lg Il Ih Is Ip Ig Iz Im In Iu Edd Edu Euu Nl].
+    constructor; cbn [al objs datas descs exts log]; auto.
+    - intros d' D' L'. rewrite lookup_store in L'. rewrite LV.
+      destruct (Nat.eqb_spec d d') as [->|N]; [apply orb_true_r|]. rewrite (Il _ _ L'). rewrite !orb_true_r. reflexivity.
+    - intros d' D' L'. rewrite lookup_store in L'. rewrite CH.
+      destruct (Nat.eqb_spec d d') as [->|N]; cbn [b2n].
+      + injection L' as <-. cbn. lia.
+      + rewrite (Ih _ _ L'). lia.
+    - intros d' D' L'. rewrite lookup_store in L'. rewrite CH, CW.
+      destruct (Nat.eqb_spec d d') as [->|N]; cbn [b2n].
+      + injection L' as <-. cbn. lia.
+      + rewrite (Is _ _ L'). lia.
+    - intros d' D' L'. rewrite lookup_store in L'. destruct (Nat.eqb_spec d d') as [->|N]; eauto.
+      injection L' as <-. cbn. lia.
+    - intros d' D' L'. rewrite lookup_store in L'. destruct (Nat.eqb_spec d d') as [->|N]; eauto.
+      injection L' as <-. reflexivity.
+    - intros d' D' L'. rewrite lookup_store in L'. destruct (Nat.eqb_spec d d') as [->|N]; eauto.
+      injection L' as <-. cbn. lia.
+    - intros d' D' L' Hp. rewrite lookup_store in L'. destruct (Nat.eqb_spec d d') as [->|N].
+      + injection L' as <-. cbn. exists m. rewrite LV, Nat.eqb_refl, lookup_store. repeat split; auto.
+        destruct (Nat.eqb_spec d' m); congruence.
+      + destruct (Im _ _ L' Hp) as (m' & A1 & A2 & A3). exists m'. rewrite LV, A2, lookup_store, !orb_true_r.
+        repeat split; auto. destruct (Nat.eqb_spec d m'); congruence.
+    - intros d' L'. rewrite lookup_store in L'. rewrite CH, CW.
+      destruct (Nat.eqb_spec d d') as [->|N]; [discriminate|]. cbn [b2n]. destruct (In d' L'). lia.
+    - intros j oj E' KU Wf. specialize (UC j oj E' KU Wf). destruct (gp (ogp oj)) as [m'|]; auto.
+      rewrite UU in UC. destruct (UL m' UC) as (U1 & U2). rewrite LV, U1, lookup_store, !orb_true_r. split; auto.
+      destruct (Nat.eqb_spec d m'); congruence.
+    - intros d1 d2 D1 D2 m' L1' L2'. rewrite lookup_store in L1', L2'.
+      destruct (Nat.eqb_spec d d1) as [E1|N1']; destruct (Nat.eqb_spec d d2) as [E2|N2']; try congruence.
+      + injection L1' as <-. cbn. intros A1 A2. destruct (ML _ _ _ L2' A2) as (_ & X & _). congruence.
+      + injection L2' as <-. cbn. intros A1 A2. destruct (ML _ _ _ L1' A1) as (_ & X & _). congruence.
+      + eauto.
+    - intros d' D' m' L'. rewrite lookup_store in L'. rewrite UU.
+      destruct (Nat.eqb_spec d d') as [->|N]; eauto. injection L' as <-. cbn. intros A. injection A as <-. auto.
+    - intros m'. rewrite UU. auto.
+    - intros b Lb. rewrite LV in Lb. rewrite UU.
+      destruct (Nat.eqb_spec m b) as [->|Nm].
+      + right. left. exists d. eexists. rewrite lookup_store, Nat.eqb_refl. split; [reflexivity|]. reflexivity.
+      + destruct (Nat.eqb_spec d b) as [->|Nd].
+        * left. rewrite lookup_store, Nat.eqb_refl. discriminate.
+        * simpl in Lb. destruct (Nl b Lb) as [H|[(d' & D' & L' & M')|H]]; auto.
+          -- left. rewrite lookup_store. destruct (Nat.eqb_spec d b); congruence.
+          -- right. left. exists d', D'. rewrite lookup_store. destruct (Nat.eqb_spec d d'); [congruence|auto].
+  Qed.
+End Fresh.
+
+Section SharedAlloc.
+  Variable ok : nat -> N -> bool.
+
+  (** what cstl_shared_ptr_alloc does after the reset of the target *)
+  Definition shared_alloc_tail (s1 : st) (i : nat) (sz : N) (cb : option nat) : res st :=
+    if 0 <? sz then
+      let '(s2, r) := do_malloc ok s1 DATA_SZ in
+      match r with
+      | None => Ok s2
+      | Some d =>
+        let s3 := wr_data s2 d (mkD 1 1 (mkU (mkG (AData d) None) None)) in
+        s4 <- unique_alloc ok s3 (AData d) sz cb;;
+        p <- unique_get s4 (AData d);;
+        match p with
+        | Some _ => Ok (wr_gp s4 i (mkG (ASlot i) (Some d)))
+        | None => Ok (do_free s4 (Some d))
+        end
+      end
+    else Ok s1.
+
+  Lemma shared_alloc_unfold s i sz cb :
+    shared_alloc ok s i sz cb = (s1 <- shared_reset s i;; shared_alloc_tail s1 i sz cb).
+  Proof. reflexivity. Qed.
+
+  Lemma shared_alloc_tail_spec s1 i o1 sz cb :
+    inv s1 -> nth_error (objs s1) i = Some o1 -> tgt i o1 = None -> ownerk (okind o1) = true ->
+    exists s', shared_alloc_tail s1 i sz cb = Ok s' /\ inv s' /\
+      ((exists d m a1, 0 < sz /\ malloc ok (al s1) DATA_SZ = (a1, Some d) /\ malloc ok a1 sz = (al s', Some m) /\
+          objs s' = upd (objs s1) i (ptr_obj i o1 (Some d)) /\
+          lookup d (datas s') = Some (mkD 1 1 (mkU (mkG (AData d) (Some m)) cb)) /\
+          descs s' = descs s1)
+       \/
+       (objs s' = objs s1 /\ (forall b, is_live (al s') b = is_live (al s1) b) /\
+        (forall b, is_live (al s1) b = true -> lookup b (descs s') = lookup b (descs s1)) /\
+        (sz = 0 \/ snd (malloc ok (al s1) DATA_SZ) = None \/
+         exists a1 d, malloc ok (al s1) DATA_SZ = (a1, Some d) /\ snd (malloc ok a1 sz) = None))).
+  Proof.
+    intros I E T K. unfold shared_alloc_tail.
+    destruct (N.ltb_spec 0 sz) as [Sz|Sz].
+    2:{ exists s1. split; auto. split; auto. right. repeat split; auto. left. lia. }
+    unfold do_malloc. destruct (malloc ok (al s1) DATA_SZ) as (a1 & [d|]) eqn:M1.
+    2:{ eexists. split; [reflexivity|]. pose proof (inv_log _ _ I) as LI.
+        pose proof (linv_malloc ok _ _ _ _ _ LI M1) as LI1. pose proof (malloc_none ok _ _ _ M1) as (LL & _).
+        split; [|right].
+        - unfold add_log, set_al. cbn [al objs datas descs exts log]. apply pinv_ext; auto.
+          intros b. unfold is_live. rewrite LL. reflexivity.
+        - unfold add_log, set_al. cbn [al objs datas descs exts log]. repeat split; auto.
+          intros b. unfold is_live. rewrite LL. reflexivity. }
+    (* the bookkeeping block exists *)
+    pose proof (inv_log _ _ I) as LI.
+    pose proof (linv_malloc ok _ _ _ _ _ LI M1) as LI1.
+    pose proof (malloc_some ok _ _ _ _ M1) as (Ed & _ & N1).
+    assert (Fd : is_live (al s1) d = false) by (subst d; apply fresh_not_live; apply LI).
+    pose proof (not_live_nodata _ _ _ I Fd) as Ld.
+    unfold unique_alloc.
+    rewrite (unique_reset_data_none _ d (mkD 1 1 (up_init d))).
+    2:{ unfold wr_data, set_datas, add_log, set_al. cbn [datas]. rewrite lookup_store, Nat.eqb_refl. reflexivity. }
+    2-4: reflexivity.
+    cbn [bind hard soft]. destruct (N.ltb_spec 0 sz) as [_|]; [|lia].
+    unfold do_malloc, wr_data, set_datas, add_log, set_al. cbn [al objs datas descs exts log].
+    destruct (malloc ok a1 sz) as (a2 & [m|]) eqn:M2.
+    - (* success *)
+      unfold wr_up. cbn [datas]. rewrite !lookup_store, Nat.eqb_refl. cbn [bind hard soft].
+      unfold unique_get, rd_up, set_datas. cbn [datas]. rewrite lookup_store, Nat.eqb_refl. cbn [bind dup ugp].
+      unfold gget. cbn [gself gp]. rewrite addr_eqb_refl. cbn [bind].
+      unfold wr_gp. cbn [objs]. rewrite E.
+      eexists. split; [reflexivity|]. unfold set_objs. cbn [al objs datas descs exts log].
+      fold (ptr_obj i o1 (Some d)).
+      pose proof (pinv_fresh ok s1 i o1 d m a1 a2 sz cb I E T K M1 M2) as Q.
+      split.
+      + apply (pinv_ext _ _ _ _ _ _ Q); cbn [al objs datas descs exts log]; auto.
+        * apply Q.
+        * intros d'. rewrite !lookup_store. destruct (Nat.eqb_spec d d'); auto.
+      + left. exists d, m, a1. cbn [al objs datas descs exts log]. repeat split; auto.
+        rewrite lookup_store, Nat.eqb_refl. reflexivity.
+    - (* the managed memory cannot be allocated: the bookkeeping block is released *)
+      cbn [bind]. unfold unique_get, rd_up. cbn [datas]. rewrite lookup_store, Nat.eqb_refl. cbn [bind dup ugp].
+      unfold gget, up_init. cbn [gself gp]. rewrite addr_eqb_refl. cbn [bind].
+      unfold do_free. cbn [al objs datas descs exts log].
+      pose proof (linv_malloc ok _ _ _ _ _ LI1 M2) as LI2.
+      pose proof (malloc_none ok _ _ _ M2) as (LL2 & _).
+      assert (Ld2 : is_live a2 d = true).
+      { rewrite (is_live_malloc ok _ _ _ _ d M2). rewrite (is_live_malloc ok _ _ _ _ d M1). rewrite Nat.eqb_refl. reflexivity. }
+      rewrite Ld2.
+      assert (LV : forall b, is_live (free a2 (Some d)) b = is_live (al s1) b).
+      { intros b. rewrite is_live_free by auto. rewrite (is_live_malloc ok _ _ _ _ b M2), (is_live_malloc ok _ _ _ _ b M1).
+        destruct (Nat.eqb_spec d b) as [->|]; simpl; auto. }
+      eexists. split; [reflexivity|]. split; [|right]; cbn [al objs datas descs exts log].
+      + apply pinv_ext; auto.
+        * apply linv_free; auto.
+        * intros d'. rewrite lookup_remove, !lookup_store. destruct (Nat.eqb_spec d d') as [->|]; auto.
+      + repeat split; auto.
+        * intros b Lb. rewrite lookup_remove. destruct (Nat.eqb_spec d b) as [->|]; [congruence|auto].
+        * right. right. exists a1, d. rewrite M2. auto.
+  Qed.
+End SharedAlloc.
+
+(** replacing an object by one of the same kind with the same target *)
+Lemma pinv_upd_same_tgt s i o o' :
+  inv s -> nth_error (objs s) i = Some o -> okind o' = okind o -> tgt i o' = tgt i o ->
+  (okind o = KU -> wf_obj i o' = true -> gp (ogp o') = None -> oclr o' = None) ->
+  inv (set_objs s (upd (objs s) i o')).
+Proof.
+  intros I E K T C.
+  assert (HH : forall d, cnt (hp None d) 0 (upd (objs s) i o') = cnt (hp None d) 0 (objs s)).
+  { intros d. apply cnt_upd_same with (o := o); auto. cbn [Nat.add]. unfold hp. cbn [ek]. rewrite K, T. reflexivity. }
+  assert (WW : forall d, cnt (wp None d) 0 (upd (objs s) i o') = cnt (wp None d) 0 (objs s)).
+  { intros d. apply cnt_upd_same with (o := o); auto. cbn [Nat.add]. unfold wp. cbn [ek]. rewrite K, T. reflexivity. }
+  assert (UU : forall m, cnt (upr m) 0 (upd (objs s) i o') = cnt (upr m) 0 (objs s)).
+  { intros m. apply cnt_upd_same with (o := o); auto. cbn [Nat.add]. unfold upr. rewrite K, T. reflexivity. }
+  apply pinv_same_counts with (x := None); auto.
+  intros j oj E' KU Wf. rewrite nth_error_upd in E'. destruct (Nat.eqb_spec i j) as [->|N].
+  - destruct (Nat.ltb j (length (objs s))); [|discriminate]. injection E' as <-.
+    destruct (gp (ogp o')) as [m|] eqn:G.
+    + rewrite UU. assert (tgt j o = Some m) as T' by (rewrite <- T; unfold tgt; rewrite Wf; auto).
+      assert (1 <= cnt (upr m) 0 (objs s)); [|lia].
+      apply (cnt_ge _ 0 _ j o E). cbn [Nat.add]. unfold upr. rewrite <- K, KU, T'. cbn. apply Nat.eqb_refl.
+    + apply C; auto. congruence.
+  - pose proof (uniq_cond s None I j oj E' KU Wf) as Q. destruct (gp (ogp oj)); auto. rewrite UU. auto.
+Qed.
+
+Lemma tgt_stray i o : wf_obj i o = false -> tgt i o = None.
+Proof. unfold tgt. intros ->. reflexivity. Qed.
+
+(** cstl_shared_ptr_init / cstl_weak_ptr_init / cstl_array_init /
+    cstl_unique_ptr_init on a disposable object *)
+Lemma reinit_inv s i o :
+  inv s -> nth_error (objs s) i = Some o -> tgt i o = None ->
+  inv (set_objs s (upd (objs s) i (obj_init (okind o) i))).
+Proof.
+  intros I E T. apply pinv_upd_same_tgt with (o := o); auto.
+  rewrite T. unfold tgt, wf_obj, obj_init. cbn. rewrite Nat.eqb_refl. reflexivity.
+Qed.
+
+Lemma stray_copy_inv s src dst os od :
+  inv s -> nth_error (objs s) src = Some os -> nth_error (objs s) dst = Some od ->
+  okind os = okind od -> tgt dst od = None -> wf_obj dst os = false ->
+  inv (set_objs s (upd (objs s) dst os)).
+Proof.
+  intros I Es Ed K T W. apply pinv_upd_same_tgt with (o := od); auto.
+  - rewrite T. apply tgt_stray; auto.
+  - congruence.
+Qed.
+
+Lemma hp_wf x d i o : wf_obj i o = true -> hp x d i o = ownerk (ek x i o) && opt_is (gp (ogp o)) d.
+Proof. unfold hp, tgt. intros ->. reflexivity. Qed.
+Lemma wp_wf x d i o : wf_obj i o = true -> wp x d i o = kind_eqb (ek x i o) KW && opt_is (gp (ogp o)) d.
+Proof. unfold wp, tgt. intros ->. reflexivity. Qed.
+
+Lemma gp_swap_spec s a b oa ob :
+  inv s -> nth_error (objs s) a = Some oa -> nth_error (objs s) b = Some ob ->
+  okind oa = okind ob -> okind oa <> KU -> wf_obj a oa = true -> wf_obj b ob = true ->
+  exists s', gp_swap s a b = Ok s' /\ inv s' /\
+    objs s' = upd (upd (objs s) a (ptr_obj a oa (gp (ogp ob)))) b
+                  (ptr_obj b ob (gp (ogp oa))).
+Proof.
+  intros I Ea Eb K NU Wa Wb. unfold gp_swap, rd_gp. rewrite Ea, Eb. cbn [bind].
+  unfold gget. pose proof Wa as Wa'. pose proof Wb as Wb'. unfold wf_obj in Wa', Wb'. rewrite Wa', Wb'. cbn [bind].
+  rewrite (wr_gp_eq s a oa _ Ea).
+  destruct (Nat.eq_dec a b) as [->|N].
+  - assert (oa = ob) by congruence. subst ob.
+    rewrite (wr_gp_eq _ b (ptr_obj b oa (gp (ogp oa)))).
+    2:{ cbn [objs set_objs]. eapply nth_upd_same; eauto. }
+    eexists. split; [reflexivity|]. cbn [objs set_objs]. rewrite ptr_obj_ptr_obj, upd_upd.
+    rewrite ptr_obj_same, upd_same by auto. split; auto.
+    rewrite !set_objs_same. auto.
+  - rewrite (wr_gp_eq _ b ob).
+    2:{ cbn [objs set_objs]. rewrite nth_upd_other; auto. }
+    eexists. split; [reflexivity|]. cbn [objs set_objs]. split; [|reflexivity].
+    set (l1 := upd (objs s) a (ptr_obj a oa (gp (ogp ob)))).
+    assert (Eb1 : nth_error l1 b = Some ob) by (subst l1; rewrite nth_upd_other; auto).
+    assert (HH : forall d, cnt (hp None d) 0 (upd l1 b (ptr_obj b ob (gp (ogp oa)))) = cnt (hp None d) 0 (objs s)).
+    { intros d. pose proof (cnt_hp_set None (objs s) a oa (gp (ogp ob)) d (or_introl eq_refl) Ea) as Q1.
+      pose proof (cnt_hp_set None l1 b ob (gp (ogp oa)) d (or_introl eq_refl) Eb1) as Q2. fold l1 in Q1.
+      rewrite hp_wf in Q1, Q2 by auto. cbn [ek] in Q1, Q2. rewrite K in *. lia. }
+    assert (WW : forall d, cnt (wp None d) 0 (upd l1 b (ptr_obj b ob (gp (ogp oa)))) = cnt (wp None d) 0 (objs s)).
+    { intros d. pose proof (cnt_wp_set None (objs s) a oa (gp (ogp ob)) d (or_introl eq_refl) Ea) as Q1.
+      pose proof (cnt_wp_set None l1 b ob (gp (ogp oa)) d (or_introl eq_refl) Eb1) as Q2. fold l1 in Q1.
+      rewrite wp_wf in Q1, Q2 by auto. cbn [ek] in Q1, Q2. rewrite K in *. lia. }
+    assert (I1 : forall m, cnt (upr m) 0 l1 = cnt (upr m) 0 (objs s)).
+    { intros m. subst l1. apply cnt_upd_same with (o := oa); auto. cbn [Nat.add]. unfold upr. cbn [okind ptr_obj].
+      destruct (okind oa); try congruence; reflexivity. }
+    assert (UU : forall m, cnt (upr m) 0 (upd l1 b (ptr_obj b ob (gp (ogp oa)))) = cnt (upr m) 0 (objs s)).
+    { intros m. rewrite <- I1. apply cnt_upd_same with (o := ob); auto. cbn [Nat.add]. unfold upr. cbn [okind ptr_obj].
+      rewrite <- K. destruct (okind oa); try congruence; reflexivity. }
+    unfold set_objs. cbn [al objs datas descs exts log].
+    apply (pinv_same_counts None None s _ I HH WW UU).
+    intros j oj E' KU Wf. rewrite nth_error_upd in E'. destruct (Nat.eqb_spec b j) as [->|Nb].
+    + destruct (Nat.ltb j (length l1)); [|discriminate]. injection E' as <-. cbn in KU. congruence.
+    + subst l1. rewrite nth_error_upd in E'. destruct (Nat.eqb_spec a j) as [->|Na].
+      * destruct (Nat.ltb j (length (objs s))); [|discriminate]. injection E' as <-. cbn in KU. congruence.
+      * pose proof (uniq_cond s None I j oj E' KU Wf) as Q. destruct (gp (ogp oj)); auto. rewrite UU. auto.
+Qed.
+
+(** ** unique pointers at pool slots *)
+Definition uobj (u : nat) (o : obj) (p c : option nat) : obj :=
+  mkO (okind o) (mkG (ASlot u) p) c (ooff o) (olen o).
+
+Lemma upr_obj m u o d : okind o = KU -> wf_obj u o = true -> gp (ogp o) = Some d -> upr m u o = Nat.eqb d m.
+Proof. intros K W G. unfold upr, tgt. rewrite K, W, G. reflexivity. Qed.
+
+Lemma cnt_unique_upd l u o o' :
+  nth_error l u = Some o -> okind o = KU -> okind o' = KU ->
+  (forall d, cnt (hp None d) 0 (upd l u o') = cnt (hp None d) 0 l) /\
+  (forall d, cnt (wp None d) 0 (upd l u o') = cnt (wp None d) 0 l).
+Proof.
+  intros E K K'. split; intros d; apply cnt_upd_same with (o := o); auto; cbn [Nat.add].
+  - unfold hp. cbn [ek]. rewrite K, K'. reflexivity.
+  - unfold wp. cbn [ek]. rewrite K, K'. reflexivity.
+Qed.
+
+Lemma pinv_unique_destroy s u o m c :
+  inv s -> nth_error (objs s) u = Some o -> okind o = KU -> wf_obj u o = true -> gp (ogp o) = Some m ->
+  inv (mkSt (free (al s) (Some m)) (upd (objs s) u (uobj u o None None)) (remove_key m (datas s))
+            (remove_key m (descs s)) (exts s) (MA (EvFree m) :: clear_evs m c ++ log s)).
+Proof.
+  intros I E K W G.
+  pose proof (inv_uniq _ _ I u o E K W) as Q. rewrite G in Q. destruct Q as (Lm & Nm).
+  destruct (cnt_unique_upd (objs s) u o (uobj u o None None) E K K) as (HH & WW).
+  assert (UU : forall m', cnt (upr m') 0 (upd (objs s) u (uobj u o None None)) + b2n (Nat.eqb m m') = cnt (upr m') 0 (objs s)).
+  { intros m'. pose proof (cnt_upr_set (objs s) u o None None m' E) as C. rewrite (upr_obj m' u o m) in C by auto.
+    cbn [opt_is] in C. rewrite andb_false_r in C. cbn [b2n] in C. unfold uobj. lia. }
+  assert (U1 : cnt (upr m) 0 (objs s) = 1).
+  { pose proof (inv_excl_uu _ _ I m). pose proof (upr_ge s u o m E K W G). lia. }
+  pose proof (upr_live None s) as UL. specialize (fun m => UL m I).
+  pose proof (managed_live None s) as ML. specialize (fun d D m => ML d D m I).
+  destruct I as [Lg Il Ih Is Ip Ig Iz Im In Iu Edd Edu Euu Nl].
+  assert (DL : forall d', lookup d' (remove_key m (datas s)) = lookup d' (datas s)).
+  { intros d'. rewrite lookup_remove. destruct (Nat.eqb_spec m d'); congruence. }
+  constructor; cbn [al objs datas descs exts log].
+  - apply linv_destroy; auto.
+  - intros d' D' L'. rewrite DL in L'. rewrite is_live_free by auto.
+    destruct (Nat.eqb_spec m d'); [congruence|]. simpl. eauto.
+  - intros d' D' L'. rewrite DL in L'. rewrite HH. eauto.
+  - intros d' D' L'. rewrite DL in L'. rewrite HH, WW. eauto.
+  - intros d' D' L'. rewrite DL in L'. eauto.
+  - intros d' D' L'. rewrite DL in L'. eauto.
+  - intros d' D' L'. rewrite DL in L'. eauto.
+  - intros d' D' L' Hp. rewrite DL in L'. destruct (Im _ _ L' Hp) as (m' & A1 & A2 & A3). exists m'.
+    rewrite is_live_free, DL by auto. repeat split; auto.
+    destruct (Nat.eqb_spec m m') as [->|]; auto. exfalso. pose proof (Edu _ _ _ L' A1). lia.
+  - intros d' L'. rewrite DL in L'. rewrite HH, WW. eauto.
+  - intros j oj E' KU Wf. rewrite nth_error_upd in E'. destruct (Nat.eqb_spec u j) as [->|N].
+    + destruct (Nat.ltb j (length (objs s))); [|discriminate]. injection E' as <-. reflexivity.
+    + specialize (Iu _ _ E' KU Wf). destruct (gp (ogp oj)) as [m'|] eqn:G'; auto.
+      rewrite is_live_free, DL by auto. destruct Iu as (A1 & A2). split; auto.
+      destruct (Nat.eqb_spec m m') as [->|]; auto. exfalso.
+      assert (2 <= cnt (upr m') 0 (objs s)); [|lia].
+      apply (cnt_ge2 _ 0 _ u j o oj); auto; cbn [Nat.add]; rewrite upr_obj with (d := m'); auto; apply Nat.eqb_refl.
+  - intros d1 d2 D1 D2 m' L1 L2. rewrite DL in L1, L2. eauto.
+  - intros d' D' m' L' A. rewrite DL in L'. specialize (UU m'). pose proof (Edu _ _ _ L' A). lia.
+  - intros m'. specialize (UU m'). specialize (Euu m'). lia.
+  - intros b Lb. rewrite is_live_free in Lb by auto. destruct (Nat.eqb_spec m b) as [->|N]; [discriminate|].
+    simpl in Lb. rewrite DL. specialize (UU b). destruct (Nat.eqb_spec m b); [congruence|]. cbn [b2n] in UU.
+    destruct (Nl b Lb) as [H|[(d' & D' & L' & M')|H]]; auto.
+    + right. left. exists d', D'. rewrite DL. auto.
+    + right. right. lia.
+Qed.
+
+Section UniqueSet.
+  Variable ok : nat -> N -> bool.
+
+  Lemma pinv_unique_set s u o m a' sz cb :
+    inv s -> nth_error (objs s) u = Some o -> okind o = KU -> tgt u o = None ->
+    malloc ok (al s) sz = (a', Some m) ->
+    inv (mkSt a' (upd (objs s) u (uobj u o (Some m) cb)) (datas s) (descs s) (exts s)
+              (MA (EvMalloc m sz) :: log s)).
+  Proof.
+    intros I E K T M.
+    pose proof (inv_log _ _ I) as LI. pose proof (linv_malloc ok _ _ _ _ _ LI M) as LI1.
+    pose proof (fun b => is_live_malloc ok _ _ _ _ b M) as LV. cbn beta iota in LV.
+    pose proof (malloc_some ok _ _ _ _ M) as (Em & _ & N1).
+    assert (Fm : is_live (al s) m = false) by (subst m; apply fresh_not_live; apply LI).
+    pose proof (not_live_nodata _ _ _ I Fm) as Lm. pose proof (not_live_noupr _ _ _ I Fm) as Um.
+    destruct (cnt_unique_upd (objs s) u o (uobj u o (Some m) cb) E K K) as (HH & WW).
+    assert (UU : forall m', cnt (upr m') 0 (upd (objs s) u (uobj u o (Some m) cb)) = cnt (upr m') 0 (objs s) + b2n (Nat.eqb m m')).
+    { intros m'. pose proof (cnt_upr_set (objs s) u o (Some m) cb m' E) as C.
+      replace (upr m' u o) with false in C by (unfold upr; rewrite T; cbn; rewrite andb_false_r; reflexivity).
+      rewrite K in C. cbn [kind_eqb opt_is andb b2n] in C. unfold uobj. rewrite K. lia. }
+    pose proof (upr_live None s) as UL. specialize (fun m => UL m I).
+    pose proof (managed_live None s) as ML. specialize (fun d D m => ML d D m I).
+    destruct I as [Lg Il Ih Is Ip Ig Iz Im In Iu Edd Edu Euu Nl].
+    constructor; cbn [al objs datas descs exts log]; auto.
+    - intros d' D' L'. rewrite LV, (Il _ _ L'). apply orb_true_r.
+    - intros d' D' L'. rewrite HH. eauto.
+    - intros d' D' L'. rewrite HH, WW. eauto.
+    - intros d' D' L' Hp. destruct (Im _ _ L' Hp) as (m' & A1 & A2 & A3). exists m'. rewrite LV, A2, orb_true_r. auto.
+    - intros d' L'. rewrite HH, WW. eauto.
+    - intros j oj E' KU Wf. rewrite nth_error_upd in E'. destruct (Nat.eqb_spec u j) as [->|N].
+      + destruct (Nat.ltb j (length (objs s))); [|discriminate]. injection E' as <-. cbn.
+        rewrite LV, Nat.eqb_refl. auto.
+      + specialize (Iu _ _ E' KU Wf). destruct (gp (ogp oj)) as [m'|]; auto. destruct Iu as (A1 & A2).
+        rewrite LV, A1, orb_true_r. auto.
+    - intros d' D' m' L' A. rewrite UU. destruct (ML _ _ _ L' A) as (_ & X & _).
+      destruct (Nat.eqb_spec m m'); [congruence|]. cbn [b2n]. pose proof (Edu _ _ _ L' A). lia.
+    - intros m'. rewrite UU. destruct (Nat.eqb_spec m m') as [<-|]; cbn [b2n]; [lia|]. specialize (Euu m'). lia.
+    - intros b Lb. rewrite LV in Lb. rewrite UU. destruct (Nat.eqb_spec m b) as [->|N]; cbn [b2n].
+      + right. right. lia.
+      + simpl in Lb. destruct (Nl b Lb) as [H|[H|H]]; auto. right. right. lia.
+  Qed.
+End UniqueSet.
+
+Lemma uobj_same u o : wf_obj u o = true -> uobj u o (gp (ogp o)) (oclr o) = o.
+Proof.
+  unfold wf_obj. intros W. apply addr_eqb_eq in W. destruct o as [k [sf p] c of ln]. cbn in *. subst. reflexivity.
+Qed.
+
+Lemma unique_reset_pool_spec s u o :
+  inv s -> nth_error (objs s) u = Some o -> okind o = KU -> wf_obj u o = true ->
+  exists s', unique_reset s (ASlot u) = Ok s' /\ inv s' /\ objs s' = upd (objs s) u (uobj u o None None) /\
+             (gp (ogp o) = None -> s' = s).
+Proof.
+  intros I E K W. unfold unique_reset, rd_up. rewrite E. cbn [bind ugp uclr].
+  unfold gget. pose proof W as W'. unfold wf_obj in W'. rewrite W'. cbn [bind].
+  pose proof (inv_uniq _ _ I u o E K W) as Q.
+  destruct (gp (ogp o)) as [m|] eqn:G.
+  - destruct Q as (Lm & Nm).
+    unfold unique_init, wr_up, do_free.
+    destruct (oclr o) as [t|] eqn:C; unfold add_log; cbn [al objs datas descs exts log]; rewrite E, Lm;
+      unfold set_objs; cbn [al objs datas descs exts log]; fold (uobj u o None None);
+      (eexists; split; [reflexivity|]; cbn [objs]; split; [|split; [reflexivity|discriminate]]).
+    + apply (pinv_unique_destroy s u o m (Some t)); auto.
+    + apply (pinv_unique_destroy s u o m None); auto.
+  - rewrite Q. unfold do_free, unique_init, wr_up. rewrite E. cbn [ugp uclr]. fold (uobj u o None None).
+    assert (uobj u o None None = o) as EQ by (pose proof (uobj_same u o W) as X; rewrite G, Q in X; exact X).
+    rewrite EQ, upd_same, set_objs_same by auto. exists s. auto.
+Qed.
+
+Section UniqueOps.
+  Variable ok : nat -> N -> bool.
+
+  Lemma unique_alloc_pool_spec s u o sz cb :
+    inv s -> nth_error (objs s) u = Some o -> okind o = KU -> wf_obj u o = true ->
+    exists s' p, unique_alloc ok s (ASlot u) sz cb = Ok s' /\ inv s' /\
+      objs s' = upd (objs s) u (uobj u o p (match p with Some _ => cb | None => None end)) /\
+      (p = None -> sz = 0 \/ exists s1, unique_reset s (ASlot u) = Ok s1 /\ snd (malloc ok (al s1) sz) = None).
+  Proof.
+    intros I E K W. destruct (unique_reset_pool_spec s u o I E K W) as (s1 & R & I1 & O1 & _).
+    unfold unique_alloc. rewrite R. cbn [bind].
+    assert (E1 : nth_error (objs s1) u = Some (uobj u o None None)) by (rewrite O1; eapply nth_upd_same; eauto).
+    destruct (N.ltb_spec 0 sz) as [Sz|Sz].
+    2:{ exists s1, None. split; [reflexivity|]. split; [auto|]. split; [auto|]. intros _. left. lia. }
+    unfold do_malloc. destruct (malloc ok (al s1) sz) as (a' & [m|]) eqn:M.
+    - unfold wr_up, add_log, set_al. cbn [al objs datas descs exts log]. rewrite E1.
+      cbn [okind uobj ooff olen ugp uclr]. unfold set_objs. cbn [al objs datas descs exts log].
+      eexists. exists (Some m). split; [reflexivity|]. cbn [objs]. split; [|split; [|discriminate]].
+      + pose proof (pinv_unique_set ok s1 u (uobj u o None None) m a' sz cb I1 E1 K) as Q. apply Q; auto.
+        unfold tgt, wf_obj. cbn. rewrite Nat.eqb_refl. reflexivity.
+      + rewrite O1, upd_upd. reflexivity.
+    - eexists. exists None. split; [reflexivity|]. unfold add_log, set_al. cbn [al objs datas descs exts log].
+      split; [|split; auto].
+      + pose proof (inv_log _ _ I1) as LI. pose proof (linv_malloc ok _ _ _ _ _ LI M) as LI1.
+        pose proof (malloc_none ok _ _ _ M) as (LL & _).
+        apply pinv_ext; auto. intros b. unfold is_live. rewrite LL. reflexivity.
+      + intros _. right. exists s1. rewrite M. auto.
+  Qed.
+End UniqueOps.
+
+(** cstl_unique_ptr_release followed by the caller's free *)
+Lemma unique_release_pool_spec s u o :
+  inv s -> nth_error (objs s) u = Some o -> okind o = KU -> wf_obj u o = true ->
+  exists s', unique_release s (ASlot u) = Ok (s', gp (ogp o), oclr o) /\
+             inv (do_free s' (gp (ogp o))) /\ objs (do_free s' (gp (ogp o))) = upd (objs s) u (uobj u o None None).
+Proof.
+  intros I E K W. unfold unique_release, rd_up. rewrite E. cbn [bind ugp uclr].
+  unfold gget. pose proof W as W'. unfold wf_obj in W'. rewrite W'. cbn [bind].
+  eexists. split; [reflexivity|].
+  pose proof (inv_uniq _ _ I u o E K W) as Q.
+  unfold unique_init, wr_up. rewrite E. cbn [ugp uclr]. fold (uobj u o None None).
+  destruct (gp (ogp o)) as [m|] eqn:G.
+  - destruct Q as (Lm & Nm). unfold do_free, set_objs. cbn [al objs datas descs exts log]. rewrite Lm. split; auto.
+    apply (pinv_unique_destroy s u o m None); auto.
+  - cbn [do_free]. assert (uobj u o None None = o) as EQ by (pose proof (uobj_same u o W) as X; rewrite G, Q in X; exact X).
+    rewrite EQ, upd_same, set_objs_same by auto. auto.
+Qed.
+
+Lemma upd_comm {A} (l : list A) i j x y : i <> j -> upd (upd l i x) j y = upd (upd l j y) i x.
+Proof.
+  revert i j. induction l as [|z r IH]; intros [|i] [|j] N; simpl; auto; try congruence. f_equal. apply IH. congruence.
+Qed.
+
+Lemma rd_up_slot s i o : nth_error (objs s) i = Some o -> rd_up s (ASlot i) = Ok (mkU (ogp o) (oclr o)).
+Proof. intros E. unfold rd_up. rewrite E. reflexivity. Qed.
+
+Lemma wr_up_slot s i o p c :
+  nth_error (objs s) i = Some o -> wr_up s (ASlot i) (mkU (mkG (ASlot i) p) c) = set_objs s (upd (objs s) i (uobj i o p c)).
+Proof. intros E. unfold wr_up. rewrite E. reflexivity. Qed.
+
+Lemma unique_swap_spec s u v ou ov :
+  inv s -> nth_error (objs s) u = Some ou -> nth_error (objs s) v = Some ov -> u <> v ->
+  okind ou = KU -> okind ov = KU -> wf_obj u ou = true -> wf_obj v ov = true ->
+  exists s', unique_swap s (ASlot u) (ASlot v) = Ok s' /\ inv s' /\
+    objs s' = upd (upd (objs s) u (uobj u ou (gp (ogp ov)) (oclr ov))) v (uobj v ov (gp (ogp ou)) (oclr ou)).
+Proof.
+  intros I Eu Ev N Ku Kv Wu Wv. unfold unique_swap.
+  pose proof Wu as Wu'. unfold wf_obj in Wu'. pose proof Wv as Wv'. unfold wf_obj in Wv'.
+  set (pu := gp (ogp ou)). set (pv := gp (ogp ov)). set (cu := oclr ou). set (cv := oclr ov).
+  rewrite (rd_up_slot s u ou Eu). cbn [bind ugp uclr]. unfold gget at 1. rewrite Wu'. cbn [bind].
+  rewrite (rd_up_slot s v ov Ev). cbn [bind ugp uclr]. unfold gget at 1. rewrite Wv'. cbn [bind].
+  fold pu pv cu cv.
+  rewrite (wr_up_slot s u ou pv cu Eu).
+  set (s1 := set_objs s _).
+  assert (E1v : nth_error (objs s1) v = Some ov) by (subst s1; cbn [objs set_objs]; rewrite nth_upd_other; auto).
+  assert (E1u : nth_error (objs s1) u = Some (uobj u ou pv cu)) by (subst s1; cbn [objs set_objs]; eapply nth_upd_same; eauto).
+  rewrite (rd_up_slot s1 v ov E1v). cbn [bind ugp uclr]. fold cv.
+  rewrite (wr_up_slot s1 v ov pu cv E1v).
+  set (s2 := set_objs s1 _).
+  assert (E2u : nth_error (objs s2) u = Some (uobj u ou pv cu)) by (subst s2; cbn [objs set_objs]; rewrite nth_upd_other; auto).
+  assert (E2v : nth_error (objs s2) v = Some (uobj v ov pu cv)) by (subst s2; cbn [objs set_objs]; eapply nth_upd_same; eauto).
+  rewrite (rd_up_slot s2 u _ E2u). cbn [bind]. rewrite (rd_up_slot s2 v _ E2v). cbn [bind ugp uclr ogp oclr uobj].
+  rewrite (wr_up_slot s2 u _ pv cv E2u).
+  set (s3 := set_objs s2 _).
+  assert (E3v : nth_error (objs s3) v = Some (uobj v ov pu cv)) by (subst s3; cbn [objs set_objs]; rewrite nth_upd_other; auto).
+  rewrite (rd_up_slot s3 v _ E3v). cbn [bind ugp uclr ogp oclr uobj].
+  rewrite (wr_up_slot s3 v _ pu cu E3v).
+  eexists. split; [reflexivity|].
+  subst s3 s2 s1. unfold set_objs. cbn [al objs datas descs exts log].
+  change (uobj u (uobj u ou pv cu) pv cv) with (uobj u ou pv cv).
+  change (uobj v (uobj v ov pu cv) pu cu) with (uobj v ov pu cu).
+  assert (OE : upd (upd (upd (upd (objs s) u (uobj u ou pv cu)) v (uobj v ov pu cv)) u (uobj u ou pv cv)) v (uobj v ov pu cu)
+               = upd (upd (objs s) u (uobj u ou pv cv)) v (uobj v ov pu cu)).
+  { rewrite (upd_comm _ v u) by auto. rewrite !upd_upd. reflexivity. }
+  rewrite OE. split; [|reflexivity]. clear OE E3v E2u E2v E1u E1v. subst pu pv cu cv.
+  set (pu := gp (ogp ou)) in *. set (pv := gp (ogp ov)) in *. set (cu := oclr ou) in *. set (cv := oclr ov) in *.
+  set (l1 := upd (objs s) u (uobj u ou pv cv)).
+  assert (Ev1 : nth_error l1 v = Some ov) by (subst l1; rewrite nth_upd_other; auto).
+  destruct (cnt_unique_upd (objs s) u ou (uobj u ou pv cv) Eu Ku Ku) as (H1 & W1). fold l1 in H1, W1.
+  destruct (cnt_unique_upd l1 v ov (uobj v ov pu cu) Ev1 Kv Kv) as (H2 & W2).
+  assert (UU : forall m, cnt (upr m) 0 (upd l1 v (uobj v ov pu cu)) = cnt (upr m) 0 (objs s)).
+  { intros m. pose proof (cnt_upr_set (objs s) u ou pv cv m Eu) as C1. fold (uobj u ou pv cv) in C1. fold l1 in C1.
+    pose proof (cnt_upr_set l1 v ov pu cu m Ev1) as C2. fold (uobj v ov pu cu) in C2.
+    assert (upr m u ou = opt_is pu m) as A1 by (unfold upr, tgt; rewrite Ku, Wu; reflexivity).
+    assert (upr m v ov = opt_is pv m) as A2 by (unfold upr, tgt; rewrite Kv, Wv; reflexivity).
+    rewrite A1, Ku in C1. rewrite A2, Kv in C2. cbn [kind_eqb andb] in C1, C2. lia. }
+  pose proof (pinv_same_counts None None s (upd l1 v (uobj v ov pu cu)) I) as Q. unfold set_objs in Q.
+  apply Q; auto.
+  - intros d. rewrite H2, H1. reflexivity.
+  - intros d. rewrite W2, W1. reflexivity.
+  - intros j oj E' KU Wf. rewrite nth_error_upd in E'. destruct (Nat.eqb_spec v j) as [->|Nv].
+    + destruct (Nat.ltb j (length l1)); [|discriminate]. injection E' as <-. cbn [ogp oclr uobj gp].
+      pose proof (inv_uniq _ _ I u ou Eu Ku Wu) as X. subst pu cu. destruct (gp (ogp ou)) as [m|] eqn:G; auto.
+      rewrite UU. pose proof (upr_ge s u ou m Eu Ku Wu G). lia.
+    + subst l1. rewrite nth_error_upd in E'. destruct (Nat.eqb_spec u j) as [->|Na].
+      * destruct (Nat.ltb j (length (objs s))); [|discriminate]. injection E' as <-. cbn [ogp oclr uobj gp].
+        pose proof (inv_uniq _ _ I v ov Ev Kv Wv) as X. subst pv cv. destruct (gp (ogp ov)) as [m|] eqn:G; auto.
+        rewrite UU. pose proof (upr_ge s v ov m Ev Kv Wv G). lia.
+      * pose proof (uniq_cond s None I j oj E' KU Wf) as X. destruct (gp (ogp oj)); auto. rewrite UU. auto.
+Qed.
+
+(** * The scripted pointer system: every call keeps the invariant; the guard *)
+Definition margs (o : mop) : list nat :=
+  match o with
+  | UInit _ | SInit _ | WInit _ | StrayCopy _ _ => []
+  | UAlloc u _ _ | UGet u | URelease u | UReset u => [u]
+  | USwap u v => [u; v]
+  | SAlloc x _ _ | SGet x | SUnique x | SReset x => [x]
+  | SShare e n => [e; n]
+  | SSwap a b | WSwap a b => [a; b]
+  | WFrom w x | WLock w x => [w; x]
+  | WReset w => [w]
+  end.
+
+Definition stray (s : st) (i : nat) : Prop :=
+  exists o, nth_error (objs s) i = Some o /\ wf_obj i o = false.
+Definition wfo (s : st) (i : nat) : Prop :=
+  exists o, nth_error (objs s) i = Some o /\ wf_obj i o = true.
+
+Lemma has_kind_spec s i k : has_kind s i k = true -> exists o, nth_error (objs s) i = Some o /\ okind o = k.
+Proof.
+  unfold has_kind, kind_at. destruct (nth_error (objs s) i) as [o|]; [|discriminate]. cbn.
+  intros H. exists o. split; auto. destruct (okind o), k; try discriminate; reflexivity.
+Qed.
+
+Lemma stray_gget s i o : nth_error (objs s) i = Some o -> wf_obj i o = false ->
+  (g <- rd_gp s i;; gget (ASlot i) g) = Ab.
+Proof. intros E W. unfold rd_gp, gget. rewrite E. cbn [bind]. unfold wf_obj in W. rewrite W. reflexivity. Qed.
+
+Lemma stray_rd_up s i o : nth_error (objs s) i = Some o -> wf_obj i o = false ->
+  (u <- rd_up s (ASlot i);; gget (ASlot i) (ugp u)) = Ab.
+Proof. intros E W. unfold rd_up, gget. rewrite E. cbn [bind ugp]. unfold wf_obj in W. rewrite W. reflexivity. Qed.
+
+Lemma shared_reset_stray s i o : nth_error (objs s) i = Some o -> wf_obj i o = false -> shared_reset s i = Ab.
+Proof. intros E W. unfold shared_reset, rd_gp, gget. rewrite E. cbn [bind]. unfold wf_obj in W. rewrite W. reflexivity. Qed.
+Lemma weak_reset_stray s i o : nth_error (objs s) i = Some o -> wf_obj i o = false -> weak_reset s i = Ab.
+Proof. intros E W. unfold weak_reset, rd_gp, gget. rewrite E. cbn [bind]. unfold wf_obj in W. rewrite W. reflexivity. Qed.
+Lemma unique_reset_stray s i o : nth_error (objs s) i = Some o -> wf_obj i o = false -> unique_reset s (ASlot i) = Ab.
+Proof. intros E W. unfold unique_reset, rd_up, gget. rewrite E. cbn [bind ugp]. unfold wf_obj in W. rewrite W. reflexivity. Qed.
+
+Lemma shared_get_spec s i o :
+  inv s -> nth_error (objs s) i = Some o -> ownerk (okind o) = true -> wf_obj i o = true ->
+  exists p, shared_get s i = Ok p /\
+    match gp (ogp o) with
+    | None => p = None
+    | Some d => exists D m, lookup d (datas s) = Some D /\ gp (ugp (dup D)) = Some m /\ p = Some m /\
+                            is_live (al s) m = true
+    end.
+Proof.
+  intros I E K W. unfold shared_get, rd_gp. rewrite E. cbn [bind]. unfold gget at 1.
+  pose proof W as W'. unfold wf_obj in W'. rewrite W'. cbn [bind].
+  destruct (gp (ogp o)) as [d|] eqn:G; [|eauto].
+  assert (T : tgt i o = Some d) by (unfold tgt; rewrite W; auto).
+  destruct (owner_data None s i o d I E K T) as (D & L & Hp).
+  unfold rd_data. rewrite L. cbn [bind]. unfold gget. rewrite (inv_self _ _ I d D L), addr_eqb_refl.
+  destruct (inv_mem _ _ I d D L Hp) as (m & M1 & M2 & M3). rewrite M1. exists (Some m). split; auto.
+  exists D, m. auto.
+Qed.
+
+Lemma shared_unique_spec s i o :
+  inv s -> nth_error (objs s) i = Some o -> ownerk (okind o) = true -> wf_obj i o = true ->
+  exists b, shared_unique s i = Ok b /\
+    match gp (ogp o) with
+    | None => b = true
+    | Some d => b = ((cnt (hp None d) 0 (objs s) + cnt (wp None d) 0 (objs s)) mod 4294967296 =? 1)
+    end.
+Proof.
+  intros I E K W. unfold shared_unique, rd_gp. rewrite E. cbn [bind]. unfold gget at 1.
+  pose proof W as W'. unfold wf_obj in W'. rewrite W'. cbn [bind].
+  destruct (gp (ogp o)) as [d|] eqn:G; [|eauto].
+  assert (T : tgt i o = Some d) by (unfold tgt; rewrite W; auto).
+  destruct (owner_data None s i o d I E K T) as (D & L & Hp).
+  unfold rd_data. rewrite L. cbn [bind]. eexists. split; [reflexivity|]. rewrite (inv_soft _ _ I d D L). reflexivity.
+Qed.
+
+Lemma unique_get_spec s u o :
+  nth_error (objs s) u = Some o -> wf_obj u o = true -> unique_get s (ASlot u) = Ok (gp (ogp o)).
+Proof.
+  intros E W. unfold unique_get, rd_up. rewrite E. cbn [bind ugp]. unfold gget. unfold wf_obj in W. rewrite W. reflexivity.
+Qed.
+
+Lemma disposable_tgt s i o : disposable s i = true -> nth_error (objs s) i = Some o -> tgt i o = None.
+Proof.
+  unfold disposable, wfb, ptr_at. intros D E. rewrite E in D. unfold tgt, wf_obj.
+  destruct (addr_eqb (gself (ogp o)) (ASlot i)); cbn in D; auto. destruct (gp (ogp o)); auto. discriminate.
+Qed.
+
+Section MStep.
+  Variable ok : nat -> N -> bool.
+
+  Ltac hk H := apply has_kind_spec in H; destruct H as (? & ? & ?).
+
+  (** all object arguments well-formed: the call returns and keeps the invariant *)
+  Lemma mexec_wf s o :
+    inv s -> mdom s o = true -> (forall i, In i (margs o) -> wfo s i) ->
+    exists s' out, mexec ok s o = Done s' out /\ inv s' /\ length (objs s') = length (objs s).
+  Proof.
+    intros I D WF. destruct o; cbn [mdom] in D; cbn [mexec margs] in *;
+      repeat match goal with H : _ && _ = true |- _ => apply andb_prop in H; destruct H end.
+    - (* UInit *) hk H. rename x into o. unfold unique_init, wr_up. rewrite H.
+      eexists. eexists. split; [reflexivity|]. split.
+      + cbn [ugp uclr]. apply pinv_upd_same_tgt with (o := o); auto.
+        rewrite (disposable_tgt s u o H0 H). unfold tgt, wf_obj. cbn. rewrite Nat.eqb_refl. reflexivity.
+      + cbn. apply upd_length.
+    - (* UAlloc *) hk D. rename x into o. destruct (WF u (or_introl eq_refl)) as (o' & E' & W). assert (o' = o) by congruence. subst o'.
+      destruct (unique_alloc_pool_spec ok s u o sz cb I H H0 W) as (s' & p & R & I' & O' & _).
+      rewrite R. cbn. eexists. eexists. split; [reflexivity|]. split; auto. rewrite O'. apply upd_length.
+    - (* UGet *) hk D. destruct (WF u (or_introl eq_refl)) as (o' & E' & W).
+      rewrite (unique_get_spec s u o' E' W). cbn. eauto.
+    - (* URelease *) hk D. rename x into o. destruct (WF u (or_introl eq_refl)) as (o' & E' & W). assert (o' = o) by congruence. subst o'.
+      destruct (unique_release_pool_spec s u o I H H0 W) as (s' & R & I' & O').
+      rewrite R. cbn. eexists. eexists. split; [reflexivity|]. split; auto. rewrite O'. apply upd_length.
+    - (* USwap *) hk H. hk H1. rename x into ou. rename x0 into ov. apply negb_true_iff, Nat.eqb_neq in H0.
+      destruct (WF u (or_introl eq_refl)) as (o' & E' & Wu). assert (o' = ou) by congruence. subst o'.
+      destruct (WF v (or_intror (or_introl eq_refl))) as (o' & E'' & Wv). assert (o' = ov) by congruence. subst o'.
+      destruct (unique_swap_spec s u v ou ov I H H1 H0 H2 H3 Wu Wv) as (s' & R & I' & O').
+      rewrite R. cbn. eexists. eexists. split; [reflexivity|]. split; auto. rewrite O', !upd_length. auto.
+    - (* UReset *) hk D. rename x into o. destruct (WF u (or_introl eq_refl)) as (o' & E' & W). assert (o' = o) by congruence. subst o'.
+      destruct (unique_reset_pool_spec s u o I H H0 W) as (s' & R & I' & O' & _).
+      rewrite R. cbn. eexists. eexists. split; [reflexivity|]. split; auto. rewrite O'. apply upd_length.
+    - (* SInit *) hk H. rename x into o. unfold obj_reinit. rewrite H.
+      eexists. eexists. split; [reflexivity|]. split.
+      + exact (reinit_inv s s0 o I H (disposable_tgt s s0 o H0 H)).
+      + cbn. apply upd_length.
+    - (* SAlloc *) hk D. rename x into o. destruct (WF s0 (or_introl eq_refl)) as (o' & E' & W). assert (o' = o) by congruence. subst o'.
+      assert (K : ownerk (okind o) = true) by (rewrite H0; reflexivity).
+      destruct (shared_reset_spec s s0 o I H K W) as (s1 & R1 & I1 & O1).
+      rewrite shared_alloc_unfold, R1. cbn [bind].
+      assert (E1 : nth_error (objs s1) s0 = Some (ptr_obj s0 o None)) by (rewrite O1; eapply nth_upd_same; eauto).
+      destruct (shared_alloc_tail_spec ok s1 s0 (ptr_obj s0 o None) sz (if cb then Some 0%nat else None) I1 E1) as (s' & R & I' & C); auto.
+      { unfold tgt. rewrite wf_ptr_obj. reflexivity. }
+      rewrite R. cbn. eexists. eexists. split; [reflexivity|]. split; auto.
+      destruct C as [(d & m & a1 & _ & _ & _ & O' & _)|(O' & _)]; rewrite O', ?upd_length, O1, upd_length; auto.
+    - (* SGet *) hk D. rename x into o. destruct (WF s0 (or_introl eq_refl)) as (o' & E' & W). assert (o' = o) by congruence. subst o'.
+      assert (K : ownerk (okind o) = true) by (rewrite H0; reflexivity).
+      destruct (shared_get_spec s s0 o I H K W) as (p & R & _). rewrite R. cbn. eauto.
+    - (* SUnique *) hk D. rename x into o. destruct (WF s0 (or_introl eq_refl)) as (o' & E' & W). assert (o' = o) by congruence. subst o'.
+      assert (K : ownerk (okind o) = true) by (rewrite H0; reflexivity).
+      destruct (shared_unique_spec s s0 o I H K W) as (p & R & _). rewrite R. cbn. eauto.
+    - (* SShare *) hk H. hk H0. rename x into oe. rename x0 into on.
+      destruct (WF e (or_introl eq_refl)) as (o' & E' & We). assert (o' = oe) by congruence. subst o'.
+      destruct (WF n (or_intror (or_introl eq_refl))) as (o' & E'' & Wn). assert (o' = on) by congruence. subst o'.
+      destruct (shared_share_spec s e n oe on I H H0) as (s' & R & I' & O'); auto; try (rewrite ?H1, ?H2; reflexivity).
+      rewrite R. cbn. eexists. eexists. split; [reflexivity|]. split; auto. rewrite O'. apply upd_length.
+    - (* SSwap *) hk H. hk H0. rename x into oa. rename x0 into ob.
+      destruct (WF a (or_introl eq_refl)) as (o' & E' & Wa). assert (o' = oa) by congruence. subst o'.
+      destruct (WF b (or_intror (or_introl eq_refl))) as (o' & E'' & Wb). assert (o' = ob) by congruence. subst o'.
+      destruct (gp_swap_spec s a b oa ob I H H0) as (s' & R & I' & O'); auto; try congruence.
+      rewrite R. cbn. eexists. eexists. split; [reflexivity|]. split; auto. rewrite O', !upd_length. auto.
+    - (* SReset *) hk D. rename x into o. destruct (WF s0 (or_introl eq_refl)) as (o' & E' & W). assert (o' = o) by congruence. subst o'.
+      assert (K : ownerk (okind o) = true) by (rewrite H0; reflexivity).
+      destruct (shared_reset_spec s s0 o I H K W) as (s1 & R1 & I1 & O1).
+      rewrite R1. cbn. eexists. eexists. split; [reflexivity|]. split; auto. rewrite O1. apply upd_length.
+    - (* WInit *) hk H. rename x into o. unfold obj_reinit. rewrite H.
+      eexists. eexists. split; [reflexivity|]. split.
+      + exact (reinit_inv s w o I H (disposable_tgt s w o H0 H)).
+      + cbn. apply upd_length.
+    - (* WFrom *) hk H. hk H0. rename x into ow. rename x0 into os.
+      destruct (WF w (or_introl eq_refl)) as (o' & E' & Ww). assert (o' = ow) by congruence. subst o'.
+      destruct (WF s0 (or_intror (or_introl eq_refl))) as (o' & E'' & Ws). assert (o' = os) by congruence. subst o'.
+      destruct (weak_from_spec s w s0 ow os I H H0) as (s' & R & I' & O'); auto; try (rewrite ?H1, ?H2; reflexivity).
+      rewrite R. cbn. eexists. eexists. split; [reflexivity|]. split; auto. rewrite O'. apply upd_length.
+    - (* WLock *) hk H. hk H0. rename x into ow. rename x0 into os.
+      destruct (WF w (or_introl eq_refl)) as (o' & E' & Ww). assert (o' = ow) by congruence. subst o'.
+      destruct (WF s0 (or_intror (or_introl eq_refl))) as (o' & E'' & Ws). assert (o' = os) by congruence. subst o'.
+      destruct (weak_lock_spec s w s0 ow os I H H0) as (s' & s1 & R & I' & _ & _ & _ & O'); auto; try (rewrite ?H1, ?H2; reflexivity).
+      rewrite R. cbn. eexists. eexists. split; [reflexivity|]. split; auto. rewrite O'. apply upd_length.
+    - (* WSwap *) hk H. hk H0. rename x into oa. rename x0 into ob.
+      destruct (WF a (or_introl eq_refl)) as (o' & E' & Wa). assert (o' = oa) by congruence. subst o'.
+      destruct (WF b (or_intror (or_introl eq_refl))) as (o' & E'' & Wb). assert (o' = ob) by congruence. subst o'.
+      destruct (gp_swap_spec s a b oa ob I H H0) as (s' & R & I' & O'); auto; try congruence.
+      rewrite R. cbn. eexists. eexists. split; [reflexivity|]. split; auto. rewrite O', !upd_length. auto.
+    - (* WReset *) hk D. rename x into o. destruct (WF w (or_introl eq_refl)) as (o' & E' & W). assert (o' = o) by congruence. subst o'.
+      destruct (weak_reset_spec None s w o I (or_introl eq_refl) H) as (s1 & R1 & I1 & O1); auto; try (rewrite H0; discriminate).
+      rewrite R1. cbn. eexists. eexists. split; [reflexivity|]. split; auto. rewrite O1. apply upd_length.
+    - (* StrayCopy *)
+      destruct (nth_error (objs s) src) as [os|] eqn:Es; [|discriminate].
+      destruct (nth_error (objs s) dst) as [od|] eqn:Ed; [|discriminate].
+      repeat match goal with H : _ && _ = true |- _ => apply andb_prop in H; destruct H end.
+      unfold stray_copy. rewrite Es. eexists. eexists. split; [reflexivity|]. split.
+      + apply (stray_copy_inv s src dst os od I Es Ed).
+        * destruct (okind os), (okind od); try discriminate; reflexivity.
+        * eapply disposable_tgt; eauto.
+        * unfold wf_obj. apply negb_true_iff in H1. exact H1.
+      + cbn. apply upd_length.
+  Qed.
+End MStep.
+
+Lemma wf_dec s i o : nth_error (objs s) i = Some o -> wfo s i \/ stray s i.
+Proof. intros E. destruct (wf_obj i o) eqn:W; [left|right]; exists o; auto. Qed.
+
+Section MStray.
+  Variable ok : nat -> N -> bool.
+
+  Ltac hk H := apply has_kind_spec in H; destruct H as (? & ? & ?).
+  Ltac same_obj := repeat match goal with
+    | H1 : nth_error ?l ?i = Some ?a, H2 : nth_error ?l ?i = Some ?b |- _ =>
+      first [is_var b; assert (b = a) by congruence; subst b; clear H2
+            |is_var a; assert (a = b) by congruence; subst a; clear H1] end.
+
+  (** a stray copy in any argument position: the call aborts *)
+  Lemma mexec_stray s o i :
+    inv s -> mdom s o = true -> In i (margs o) -> stray s i -> mexec ok s o = Abort.
+  Proof.
+    intros I D IN (oi & Ei & Wi). pose proof Wi as Wi'. unfold wf_obj in Wi'.
+    destruct o; cbn [mdom] in D; cbn [mexec margs In] in *;
+      repeat match goal with H : _ && _ = true |- _ => apply andb_prop in H; destruct H end;
+      try tauto.
+    - (* UAlloc *) destruct IN as [<-|[]]. unfold unique_alloc. rewrite (unique_reset_stray s u oi); auto.
+    - (* UGet *) destruct IN as [<-|[]]. unfold unique_get. rewrite (stray_rd_up s u oi); auto.
+    - (* URelease *) destruct IN as [<-|[]]. unfold unique_release.
+      unfold rd_up, gget. rewrite Ei. cbn [bind ugp]. rewrite Wi'. reflexivity.
+    - (* USwap *) hk H. hk H1. unfold unique_swap.
+      destruct (wf_obj u x) eqn:Wu.
+      + destruct IN as [->|[->|[]]]; [congruence|]. assert (x0 = oi) by congruence. subst x0.
+        rewrite (rd_up_slot s u x H). cbn [bind ugp]. unfold gget at 1. unfold wf_obj in Wu. rewrite Wu. cbn [bind].
+        rewrite (rd_up_slot s i oi Ei). cbn [bind ugp]. unfold gget at 1. rewrite Wi'. reflexivity.
+      + rewrite (rd_up_slot s u x H). cbn [bind ugp]. unfold gget at 1. unfold wf_obj in Wu. rewrite Wu. reflexivity.
+    - (* UReset *) destruct IN as [<-|[]]. rewrite (unique_reset_stray s u oi); auto.
+    - (* SAlloc *) destruct IN as [<-|[]]. unfold shared_alloc. rewrite (shared_reset_stray s s0 oi); auto.
+    - (* SGet *) destruct IN as [<-|[]]. unfold shared_get. unfold rd_gp, gget. rewrite Ei. cbn [bind].
+      rewrite Wi'. reflexivity.
+    - (* SUnique *) destruct IN as [<-|[]]. unfold shared_unique. unfold rd_gp, gget. rewrite Ei. cbn [bind].
+      rewrite Wi'. reflexivity.
+    - (* SShare *) hk H. hk H0. unfold shared_share.
+      destruct (wf_obj n x0) eqn:Wn.
+      + destruct IN as [->|[->|[]]]; [|congruence]. assert (x = oi) by congruence. subst x.
+        destruct (shared_reset_spec s n x0 I H0) as (s1 & R1 & I1 & O1); auto; [rewrite H2; reflexivity|].
+        rewrite R1. cbn [bind]. assert (N : n <> i) by (intros ->; congruence).
+        unfold rd_gp. rewrite O1, nth_upd_other, Ei by auto. cbn [bind]. unfold gget. rewrite Wi'. reflexivity.
+      + rewrite (shared_reset_stray s n x0); auto.
+    - (* SSwap *) hk H. hk H0. unfold gp_swap, rd_gp. rewrite H, H0. cbn [bind].
+      destruct (wf_obj a x) eqn:Wa.
+      + destruct IN as [->|[->|[]]]; [congruence|]. assert (x0 = oi) by congruence. subst x0.
+        unfold gget. unfold wf_obj in Wa. rewrite Wa. cbn [bind]. rewrite Wi'. reflexivity.
+      + unfold gget. unfold wf_obj in Wa. rewrite Wa. reflexivity.
+    - (* SReset *) destruct IN as [<-|[]]. rewrite (shared_reset_stray s s0 oi); auto.
+    - (* WFrom *) hk H. hk H0. unfold weak_from.
+      destruct (wf_obj w x) eqn:Ww.
+      + destruct IN as [->|[->|[]]]; [congruence|]. assert (x0 = oi) by congruence. subst x0.
+        destruct (weak_reset_spec None s w x I (or_introl eq_refl) H) as (s1 & R1 & I1 & O1); auto; try (rewrite H1; discriminate).
+        rewrite R1. cbn [bind]. assert (N : w <> i) by (intros ->; congruence).
+        unfold rd_gp. rewrite O1, nth_upd_other, Ei by auto. cbn [bind]. unfold gget. rewrite Wi'. reflexivity.
+      + rewrite (weak_reset_stray s w x); auto.
+    - (* WLock *) hk H. hk H0. unfold weak_lock.
+      destruct (wf_obj s0 x0) eqn:Ws.
+      + destruct IN as [->|[->|[]]]; [|congruence]. assert (x = oi) by congruence. subst x.
+        destruct (shared_reset_spec s s0 x0 I H0) as (s1 & R1 & I1 & O1); auto; [rewrite H2; reflexivity|].
+        rewrite R1. cbn [bind]. assert (N : s0 <> i) by (intros ->; congruence).
+        unfold rd_gp. rewrite O1, nth_upd_other, Ei by auto. cbn [bind]. unfold gget. rewrite Wi'. reflexivity.
+      + rewrite (shared_reset_stray s s0 x0); auto.
+    - (* WSwap *) hk H. hk H0. unfold gp_swap, rd_gp. rewrite H, H0. cbn [bind].
+      destruct (wf_obj a x) eqn:Wa.
+      + destruct IN as [->|[->|[]]]; [congruence|]. assert (x0 = oi) by congruence. subst x0.
+        unfold gget. unfold wf_obj in Wa. rewrite Wa. cbn [bind]. rewrite Wi'. reflexivity.
+      + unfold gget. unfold wf_obj in Wa. rewrite Wa. reflexivity.
+    - (* WReset *) destruct IN as [<-|[]]. rewrite (weak_reset_stray s w oi); auto.
+  Qed.
+End MStray.
+
+Lemma margs_exist s o i : mdom s o = true -> In i (margs o) -> exists oi, nth_error (objs s) i = Some oi.
+Proof.
+  intros D IN. destruct o; cbn [mdom margs In] in *;
+    repeat match goal with H : _ && _ = true |- _ => apply andb_prop in H; destruct H end;
+    repeat match goal with H : has_kind _ _ _ = true |- _ => apply has_kind_spec in H; destruct H as (? & ? & ?) end;
+    repeat match goal with H : _ \/ _ |- _ => destruct H end; subst; try tauto; eauto.
+Qed.
+
+Lemma args_dec s l :
+  (forall i, In i l -> exists o, nth_error (objs s) i = Some o) ->
+  (forall i, In i l -> wfo s i) \/ (exists i, In i l /\ stray s i).
+Proof.
+  induction l as [|a l IH]; intros H; [left; intros i []|].
+  destruct (H a (or_introl eq_refl)) as (o & E).
+  destruct (wf_dec s a o E) as [W|S]; [|right; exists a; split; auto; left; auto].
+  destruct IH as [A|(i & IN & S)].
+  - intros i IN. apply H. right. auto.
+  - left. intros i [<-|IN]; auto.
+  - right. exists i. split; auto. right. auto.
+Qed.
+
+Section MStepThm.
+  Variable ok : nat -> N -> bool.
+
+  Theorem mstep_outcome s o :
+    inv s ->
+    match mstep ok s o with
+    | Done s' _ => inv s' /\ length (objs s') = length (objs s)
+    | Abort => exists i, In i (margs o) /\ stray s i
+    | Fault => False
+    | Precond => True
+    end.
+  Proof.
+    intros I. unfold mstep. destruct (mdom s o) eqn:D; auto.
+    destruct (args_dec s (margs o) (fun i IN => margs_exist s o i D IN)) as [W|(i & IN & S)].
+    - destruct (mexec_wf ok s o I D W) as (s' & out & R & I' & L). rewrite R. auto.
+    - rewrite (mexec_stray ok s o i I D IN S). eauto.
+  Qed.
+End MStepThm.
+
+(** ** initial state *)
+Lemma cnt_false p i0 l : (forall j o, nth_error l j = Some o -> p (i0 + j)%nat o = false) -> cnt p i0 l = 0.
+Proof.
+  revert i0. induction l as [|y r IH]; intros i0 H; cbn [cnt]; auto.
+  rewrite (IH (S i0)).
+  - specialize (H 0%nat y eq_refl). rewrite Nat.add_0_r in H. rewrite H. reflexivity.
+  - intros j o E. specialize (H (S j) o E). rewrite <- Nat.add_succ_comm in H. auto.
+Qed.
+
+Lemma pool_init_nth ks i0 j o : nth_error (pool_init ks i0) j = Some o -> exists k, o = obj_init k (i0 + j).
+Proof.
+  revert i0 j. induction ks as [|k r IH]; intros i0 [|j] E; cbn in E; try discriminate.
+  - injection E as <-. exists k. rewrite Nat.add_0_r. reflexivity.
+  - destruct (IH (S i0) j E) as (k' & ->). exists k'. rewrite <- Nat.add_succ_comm. reflexivity.
+Qed.
+
+Lemma inv_init ks ex : inv (st_init ks ex).
+Proof.
+  assert (T : forall j o, nth_error (pool_init ks 0) j = Some o -> tgt j o = None /\ oclr o = None).
+  { intros j o E. destruct (pool_init_nth ks 0 j o E) as (k & ->). cbn [Nat.add]. unfold tgt, wf_obj. cbn.
+    rewrite Nat.eqb_refl. auto. }
+  assert (Z : forall p : nat -> obj -> bool, (forall j o, tgt j o = None -> p j o = false) -> cnt p 0 (pool_init ks 0) = 0).
+  { intros p H. apply cnt_false. intros j o E. cbn [Nat.add]. apply H. apply (T j o E). }
+  assert (ZH : forall d, cnt (hp None d) 0 (pool_init ks 0) = 0) by (intros d; apply Z; intros j o E; unfold hp; rewrite E; cbn; apply andb_false_r).
+  assert (ZW : forall d, cnt (wp None d) 0 (pool_init ks 0) = 0) by (intros d; apply Z; intros j o E; unfold wp; rewrite E; cbn; apply andb_false_r).
+  assert (ZU : forall d, cnt (upr d) 0 (pool_init ks 0) = 0) by (intros d; apply Z; intros j o E; unfold upr; rewrite E; cbn; apply andb_false_r).
+  constructor; unfold st_init; cbn [al objs datas descs exts log]; try (intros; discriminate).
+  - split; [apply alloc_ok_init|]. split; [intros b []|]. split; [constructor|]. split; [|exact I].
+    intros b. cbn. split; [intros []|intros (H & _); lia].
+  - intros d _. auto.
+  - intros i o E K W. destruct (T i o E) as (T1 & T2). unfold tgt in T1. rewrite W in T1. rewrite T1. auto.
+  - intros m. rewrite ZU. lia.
+Qed.
+
+(** ** every history from initialised objects *)
+Theorem reach_inv ks ex s : reach lmstep (st_init ks ex) s -> inv s /\ length (objs s) = length ks.
+Proof.
+  intros R. induction R as [|s l s' out R IH E].
+  - split; [apply inv_init|]. unfold st_init. cbn [objs]. generalize 0%nat. induction ks; intros; cbn; auto.
+  - destruct IH as (I & L). unfold lmstep in E. pose proof (mstep_outcome (fst l) s (snd l) I) as Q.
+    rewrite E in Q. destruct Q as (I' & L'). split; auto. congruence.
+Qed.
